@@ -75,6 +75,9 @@ func (e *bindEnv) vocab(g *rng.R, d *adoc.Doc) (elems, attrs []xast.QN) {
 			continue
 		}
 		q := xast.QN{Local: n.Local}
+		if ps := e.rev[""]; n.Space == "" && len(ps) > 0 && g.P(30) {
+			q.Prefix = ps[0]
+		}
 		if n.Space != "" {
 			ps := e.rev[n.Space]
 			if len(ps) == 0 {
@@ -143,6 +146,12 @@ func c11Case(r *evid.Run, tier string, idx int, g *rng.R) {
 		sort.Strings(env1.rev[env1.ns["pp"]])
 	}
 	env2 := genEnv(g, []string{"q", "p", "k1", "k2", "r", "w"})
+	// in half of the cases a prefix is bound to the empty URI: names using it are no-namespace names
+	if g.Bool() {
+		env1.ns["nons"], env1.rev[""] = "", []string{"nons"}
+		env2.ns["k0"], env2.rev[""] = "", []string{"k0"}
+		r.Count("cases_with_prefix_bound_to_empty_uri", 1)
+	}
 	useEnv := func(e *bindEnv) {
 		w.env.NS = map[string]string{"xml": adoc.XMLNS}
 		for p, u := range e.ns {
@@ -223,7 +232,7 @@ func c11Case(r *evid.Run, tier string, idx int, g *rng.R) {
 	// reserved-word prefix are the open finding grammar-reserved-names of C08)
 	var plain []string
 	for _, p := range prefixes {
-		if p != "self" && p != "text" && p != "child" && p != "node" {
+		if p != "self" && p != "text" && p != "child" && p != "node" && p != "nons" {
 			plain = append(plain, p)
 		}
 	}
@@ -238,6 +247,10 @@ func c11Case(r *evid.Run, tier string, idx int, g *rng.R) {
 		{"", "fwd", vset, fwd}, {"", "rev", vset, rev}, {"", "empty", refeval.NodeSet{}, xsel.NodeSet{}}, {"", "shuf", vset, shuffled(g, fwd)},
 		{nsP, "n", 7.0, xsel.Number(7)}, {nsP, "set", vset, rev},
 		{"", "count", 9.0, xsel.Number(9)}, // a variable named like a builtin function
+	}
+	if _, ok := env1.ns["nons"]; ok {
+		// $nons:m is the no-namespace variable m; $nons:n is $n
+		vars = append(vars, vb{"nons", "m", 11.0, xsel.Number(11)}, vb{"nons", "n", 3.5, xsel.Number(3.5)}, vb{"nons", "fwd", vset, fwd})
 	}
 	w.env.Vars = map[refeval.Name]refeval.Value{}
 	var vbinds []xsel.ContextApply
@@ -293,6 +306,9 @@ func c11Case(r *evid.Run, tier string, idx int, g *rng.R) {
 	// (c) user functions with a trace monitor
 	type fdef struct{ prefix, local string }
 	fns := []fdef{{"", "f"}, {nsP, "f"}, {"", "count"}, {"", "string"}, {"", "position"}, {nsP, "count"}}
+	if _, ok := env1.ns["nons"]; ok {
+		fns = append(fns, fdef{"nons", "f"}, fdef{"nons", "count"}, fdef{"nons", "g"})
+	}
 	for i := 0; i < n/2; i++ {
 		fd := rng.Pick(g, fns)
 		space := ""
